@@ -30,8 +30,11 @@ def isn(v):
     return v != v
 
 
+BASE = {'now': T0}
+
+
 def tstamp(i, grid):
-    return T0 + (datetime.timedelta(days=i) if grid == 'd' else datetime.timedelta(hours=i))
+    return BASE['now'] + (datetime.timedelta(days=i) if grid == 'd' else datetime.timedelta(hours=i))
 
 
 def mk_ts(spec, grid):
@@ -190,6 +193,7 @@ def run_stitch(case, ctx):
         if stu != 'ok':
             ctx.ev('unslice_roundtrip'); ctx.fail('unslice_roundtrip', 'df_unslice(stitched n=%d, ub) raised %s' % (n, core.exc_str(un)))
         else:
+            ctx.check('unslice_roundtrip', [u for u in un] == list(ubs), lambda: 'df_unslice returned series for bounds %s, the bounds given were %s' % ([str(u) for u in un], [str(u) for u in ubs]))
             pieces = [un[u] for u in un]
             st2, again = ctx.call(df_slice, list(pieces), ub=[u for u in un], n=n) if len(pieces) > 1 else ('ok', None)
             if len(pieces) > 1:
@@ -212,7 +216,17 @@ def run_stitch(case, ctx):
 
 
 def run_case(case, ctx):
-    return run_stitch(case, ctx) if case['kind'] == 'stitch' else run_slice(case, ctx)
+    # some series are dated in the future (forecasts, expiry schedules): a missing bound must stay unbounded there too
+    BASE['now'] = datetime.datetime(2150, 6, 1) if case.get('future') else T0
+    try:
+        if case['kind'] == 'stitch':
+            return run_stitch(case, ctx)
+        run_slice(case, ctx)
+        if case.get('tod') and case.get('twin'):
+            # a second series with the same length and the same first/last stamp but different interior stamps
+            run_slice(dict(case, x=case['twin'], twin=None), ctx)
+    finally:
+        BASE['now'] = T0
 
 
 # ------------------------------------------------------------------ generators
@@ -249,7 +263,7 @@ def gen_case(rng):
         lb, ub = gen_bound(rng, ts, grid, span), gen_bound(rng, ts, grid, span)
         if rng.random() < 0.12 and lb is not None:
             ub = dict(lb)    # degenerate window lb == ub
-        return {'kind': 'slice', 'grid': grid, 'x': spec, 'lb': lb, 'ub': ub, 'oc': rng.choice(['()', '(]', '[)', '[]', None, 'oc', 'cc']), 'tuple_form': rng.random() < 0.1}
+        return {'kind': 'slice', 'grid': grid, 'x': spec, 'lb': lb, 'ub': ub, 'oc': rng.choice(['()', '(]', '[)', '[]', None, 'oc', 'cc']), 'tuple_form': rng.random() < 0.1, 'future': rng.random() < 0.25}
     if r < 0.7:
         ts = sorted(rng.sample(range(72), rng.randint(1, 30)))
         spec = {'ts': ts, 'cols': [[float(next(ids)) for _ in ts]], 'frame': rng.random() < 0.3}
@@ -264,7 +278,13 @@ def gen_case(rng):
                 h = rng.choice(hours)
                 return [h, 0, 0, rng.choice([0, 0, 250000, 500000])] if sub else [h, 0]
             return [rng.randrange(24), 30]
-        return {'kind': 'slice', 'grid': 'h', 'tod': True, 'x': spec, 'lb': pick(), 'ub': pick(), 'oc': rng.choice(['()', '(]', '[)', '[]', None])}
+        case = {'kind': 'slice', 'grid': 'h', 'tod': True, 'x': spec, 'lb': pick(), 'ub': pick(), 'oc': rng.choice(['()', '(]', '[)', '[]', None])}
+        if len(ts) >= 3 and rng.random() < 0.5:
+            inner = sorted(rng.sample(range(ts[0] + 1, ts[-1]), min(len(ts) - 2, ts[-1] - ts[0] - 1))) if ts[-1] - ts[0] - 1 >= len(ts) - 2 else None
+            if inner is not None and [ts[0]] + inner + [ts[-1]] != ts:
+                ts2 = [ts[0]] + inner + [ts[-1]]
+                case['twin'] = {'ts': ts2, 'cols': [[float(next(ids)) for _ in ts2]], 'frame': spec['frame']}
+        return case
     grid = rng.choice(['d', 'd', 'h'])
     span = 20 if grid == 'd' else 60
     k = rng.randint(2, 5)
